@@ -40,6 +40,9 @@ CHECKS = {
  "C18": ("model_checking", "exhaustive enumeration of supports(..) subsets as compiled receivers x input bodies against a shape-table model; full ShapeSet API table; API vs derived differential",
          "odometer", "every (declared shape-word set, body) pair of the table model is replayed on a compiled receiver: accept/reject and the exact error count (one per non-conforming variant); unions error without crashing; 16 ShapeSets x 4 shapes x 4 carriers; derived verdict == API verdict",
          "quick: word sets of size <= 2 and their complements (134 of 2048), enums of <= 3 variants; thorough: all 2048 sets, enums of <= 4 variants", "DESIGN.md §4 C18"),
+ "C17": ("model_checking", "bounded-exhaustive enumeration of unknown names (edit-distance balls around every name) at every position of compiled receivers, built with the suggestions feature on and off; reference candidate lists + strsim arg-max",
+         "odometer", "every (receiver, position, unknown name) triple within the edit-distance bound: the suggestion must be a maximal-similarity candidate above 0.8 from the reference candidate list of that position, absent otherwise, attached to no other error, re-parse as known; feature off: none",
+         "strsim::jaro_winkler is the trusted metric; bounds: distance 1 (quick) / 2 (thorough), 7 receivers", "DESIGN.md §4 C17"),
 }
 PENDING = {}
 props = [json.loads(l) for l in open(os.path.join(V, "properties.jsonl"))]
